@@ -25,10 +25,19 @@ def main():
     path = os.path.join(V, "seeded", "SWEEP.json")
     if sys.argv[1:] and os.path.exists(path):
         out = json.load(open(path))
+    baseline = {}
     for s in seeds:
         d = os.path.join(V, "seeded", s)
         meta = json.load(open(os.path.join(d, "meta.json")))
         prop = meta["property"]
+        if prop not in baseline:  # the check must be quiet on the unchanged tree, or nothing it says counts
+            b = subprocess.run([os.path.join(V, "check"), prop, "quick"], capture_output=True, text=True, env=env, cwd=V)
+            baseline[prop] = b.returncode
+            if b.returncode != 0:
+                print(f"BASELINE {prop} exit {b.returncode} on the unchanged tree: results for its seeds are void")
+        if baseline[prop] != 0:
+            out[s] = dict(property=prop, applies=True, caught=False, error=f"baseline exit {baseline[prop]}")
+            continue
         r = subprocess.run(["git", "-C", REPO, "apply", os.path.join(d, "patch.diff")], capture_output=True, text=True)
         if r.returncode != 0:
             out[s] = dict(property=prop, applies=False, error=r.stderr.strip()[:200])
@@ -38,7 +47,7 @@ def main():
             r = subprocess.run([os.path.join(V, "check"), prop, "quick"], capture_output=True, text=True, env=env, cwd=V)
         finally:
             subprocess.run(["git", "-C", REPO, "checkout", "--", "."], check=True)
-        failed = re.findall(r"^FAILED-OBLIGATION (\S+?)(?:@[0-9.]+)?: ", r.stdout, re.M)
+        failed = [m[0] for m in re.findall(r"^FAILED-OBLIGATION (.+?)(@3\.1[0-9])?: ", r.stdout, re.M)]
         viol = re.findall(r"^VIOLATION property=(\S+) replay=(\S+)( no-failing-input-found)?", r.stdout, re.M)
         first = failed[0] if failed else None
         out[s] = dict(property=prop, applies=True, exit=r.returncode, caught=(r.returncode == 1 and bool(viol)),
